@@ -139,17 +139,23 @@ structure Lit where
   den : Nat
   deriving Repr
 
+/-- optional sign -/
+def stripSign : List Char → Bool × List Char
+  | '-' :: r => (true, r)
+  | '+' :: r => (false, r)
+  | cs => (false, cs)
+
+/-- optional fraction: `(fraction digits, rest)` -/
+def splitFrac : List Char → List Char × List Char
+  | '.' :: r => (r.takeWhile isDigit, r.dropWhile isDigit)
+  | r1 => ([], r1)
+
 /-- parse a Python float literal of the supported shape; `none` = `ValueError` -/
 def parseLit (cs : List Char) : Option Lit :=
-  let (neg, cs) := match cs with
-    | '-' :: r => (true, r)
-    | '+' :: r => (false, r)
-    | _ => (false, cs)
+  let (neg, cs) := stripSign cs
   let ip := cs.takeWhile isDigit
   let r1 := cs.dropWhile isDigit
-  let (fp, r2) := match r1 with
-    | '.' :: r => (r.takeWhile isDigit, r.dropWhile isDigit)
-    | _ => ([], r1)
+  let (fp, r2) := splitFrac r1
   if ip.isEmpty && fp.isEmpty then none else
   let mant := digitsVal (ip ++ fp)
   let scale := fp.length
